@@ -211,6 +211,7 @@ func (p *parser) parseRelated() {
 			case item.Val == "Array":
 				p.match("<")
 				types = append(types, p.parseTypeUnion(itemAngledRight)...)
+				p.match(optional(","))
 			case item.Val == "SubjectSet":
 				types = append(types, p.matchSubjectSet())
 				p.match("[", "]", optional(","))
